@@ -35,6 +35,7 @@ type Scenario struct {
 	Tail        bool   // run the deterministic save/save/prune-every-prefix/reopen continuation (tail.go) from every new state …
 	TailAbandon bool   // … and after EVERY Rollback / LoadVersion(current version) transition, new state or not (a session-abandoning op is expected to lead back to a known state: exactly where a leftover would be merged away)
 	Events      bool   // classify the rebalancing steps of every Set/Remove (events.go)
+	TakeOver    bool   // C24: from the start state, enumerate every short Set/Remove sequence under the start-mode configurations (c24.go takeOverEnum)
 
 	shapeCache sync.Map
 	baseDB     *memdb.MemDB
